@@ -628,6 +628,21 @@ class Executor:
             return cast(src, self.type_of_operand(m.group(1)), m.group(2), m.group(3))
         if m and m.group(3) in ("PointerCoercion", "Transmute", "PtrToPtr"):
             return self.operand(st, m.group(1))
+        m = re.fullmatch(r"PtrMetadata\((.+)\)", t)
+        if m:
+            # length of a slice behind a (fat) pointer: one symbol per pointee object, at most isize::MAX
+            v = self.operand(st, m.group(1))
+            n = 0
+            while isinstance(v, Ref) and n < 6:
+                v = self.deref(st, v)
+                n += 1
+            if isinstance(v, Opaque):
+                fresh = "len" not in v.children
+                ln = v.child("len", "usize")
+                if fresh and isinstance(ln, Scalar):
+                    self.ctx.assumptions.append("(bvule %s %s)" % (ln.term, bvlit((1 << 63) - 1, 64)))
+                return ln
+            raise Unsupported("PtrMetadata of %r" % (v,))
         if t.startswith("&"):
             rest = t[1:].strip()
             for p in ("mut ", "raw const ", "raw mut ", "fake shallow ", "fake "):
